@@ -511,4 +511,98 @@ theorem appendObject_refines {h : Heap} (hs : Struct h) (ha : Acyc h) (n v : Nat
   rw [mapM_append_single _ _ _ kvs (k, x) hkids (by simp only []; rw [frame v hno, hx]; rfl)]
   rfl
 
+/-! ### `absVal` is what the accessors say, node by node -/
+
+/-- a scalar node denotes exactly what its typed getter answers -/
+theorem absVal_scalar_is_getter (fuel : Nat) (h : Heap) (n : Id) :
+    (h.typeOf n = .numeric → ∀ b, absVal (fuel + 1) h n = some (.num b) ↔ (h.getNumeric (some n)).2 = .ok b) ∧
+    (h.typeOf n = .string → ∀ s, absVal (fuel + 1) h n = some (.str s) ↔ (h.getString (some n)).2 = .ok s) ∧
+    (h.typeOf n = .bool → ∀ b, absVal (fuel + 1) h n = some (.bool b) ↔ (h.getBool (some n)).2 = .ok b) ∧
+    (h.typeOf n = .null → absVal (fuel + 1) h n = some .null ∧ h.getNull (some n) = .ok ()) := by
+  refine ⟨fun ht b => ?_, fun ht s => ?_, fun ht b => ?_, fun ht => ?_⟩
+  · unfold absVal scalarVal Heap.getNumeric
+    simp only [ht, bne_self_eq_false, Bool.false_eq_true, if_false]
+    cases h.getValue n with
+    | mk h1 o =>
+      cases o with
+      | err e => simp
+      | panic s => simp
+      | ok v =>
+        cases v with
+        | none => simp
+        | some c => cases c <;> simp
+  · unfold absVal scalarVal Heap.getString
+    simp only [ht, bne_self_eq_false, Bool.false_eq_true, if_false]
+    cases h.getValue n with
+    | mk h1 o =>
+      cases o with
+      | err e => simp
+      | panic s => simp
+      | ok v =>
+        cases v with
+        | none => simp
+        | some c => cases c <;> simp
+  · unfold absVal scalarVal Heap.getBool
+    simp only [ht, bne_self_eq_false, Bool.false_eq_true, if_false]
+    cases h.getValue n with
+    | mk h1 o =>
+      cases o with
+      | err e => simp
+      | panic s => simp
+      | ok v =>
+        cases v with
+        | none => simp
+        | some c => cases c <;> simp
+  · unfold absVal Heap.getNull
+    simp [ht]
+
+/-- on a sound heap the elements `absVal` lists for an array are, position by position, what `GetIndex` returns -/
+theorem arrayIds_is_getIndex {h : Heap} (hs : Struct h) (n : Nat) (hn : n < h.size) (harr : (h.get n).type = .array) (i : Nat)
+    (hi : i < (h.childMap n).length) :
+    ∃ c, (arrayIds (h.childMap n))[i]? = some c ∧ h.getIndex (some n) (i : Int) = .ok c ∧ (arrayIds (h.childMap n)).length = (h.childMap n).length := by
+  have dense := (hs n hn).dense harr
+  -- all lookups succeed, so the filterMap is a map
+  have key : ∀ (k : Nat), k ≤ (h.childMap n).length →
+      (List.range k).filterMap (fun j => (h.childMap n).lookup (itoa j)) = (List.range k).map (fun j => ((h.childMap n).lookup (itoa j)).getD 0) := by
+    intro k hk
+    induction k with
+    | zero => rfl
+    | succ k ih =>
+      rw [List.range_succ, List.filterMap_append, List.map_append, ih (by omega)]
+      obtain ⟨x, hx⟩ := Option.isSome_iff_exists.mp (dense k (by omega))
+      simp [hx]
+  obtain ⟨c, hc⟩ := Option.isSome_iff_exists.mp (dense i hi)
+  refine ⟨c, ?_, ?_, ?_⟩
+  · unfold arrayIds
+    rw [key _ (Nat.le_refl _)]
+    simp [hi, hc]
+  · unfold Heap.getIndex
+    have ht : h.typeOf n = .array := harr
+    simp only [ht, bne_self_eq_false, Bool.false_eq_true, if_false]
+    have h1 : ¬ ((i : Int) < 0) := by omega
+    simp only [h1, if_false, Int.toNat_natCast, hc]
+  · unfold arrayIds
+    rw [key _ (Nat.le_refl _)]
+    simp
+
+/-- the members `absVal` lists for an object are exactly what `GetKey` finds -/
+theorem members_is_getKey {h : Heap} (hs : Struct h) (n : Nat) (hn : n < h.size) (hobj : (h.get n).type = .object) (k : Bytes) (c : Id) :
+    (k, c) ∈ h.childMap n ↔ h.getKey (some n) k = .ok c := by
+  unfold Heap.getKey
+  have ht : h.typeOf n = .object := hobj
+  simp only [ht, bne_self_eq_false, Bool.false_eq_true, if_false]
+  constructor
+  · intro hm
+    have := lookup_of_mem (hs n hn).nodup hm
+    simp only [] at this
+    rw [this]
+  · intro hg
+    cases hl : (h.childMap n).lookup k with
+    | none => rw [hl] at hg; cases hg
+    | some x =>
+      rw [hl] at hg
+      simp only [Outcome.ok.injEq] at hg
+      subst hg
+      exact mem_of_lookup hl
+
 end Ajson.Proofs
